@@ -27,6 +27,7 @@ if mods:
         'LbzVerif.Props.C02.Inspect.inspect_compress',
         'LbzVerif.Props.C02.Inspect.inspect_compress_gen',
         'LbzVerif.Props.C02.Inspect.inspect_compress_aligned',
+        'LbzVerif.Props.C02.Inspect.inspect_compress_naive',
     ])
 sys.path.insert(0, os.path.dirname(os.path.abspath(__file__)))
 import inproc  # noqa: E402
